@@ -1326,21 +1326,31 @@ fn run_history<const M: usize>(plan: &Plan) {
     if fp == 0 {
         track::set_fail_kth(1);
     }
+    // for MIN_ALIGN = 1 the constructors of `impl Bump<1>` (new, try_new, with_capacity,
+    // try_with_capacity) are taken half of the time: they must behave like the generic ones
+    fn as_m<const M: usize>(b: Bump<1>) -> Bump<M> {
+        assert!(M == 1);
+        let r = unsafe { std::mem::transmute_copy::<Bump<1>, Bump<M>>(&b) };
+        std::mem::forget(b);
+        r
+    }
+    let plain = M == 1 && d.rng.chance(1, 2);
     let (desc, r): (String, Result<Result<Bump<M>, ()>, Res>) = match how {
-        0 => ("cap 0 0".to_string(), { d.begin("cap 0 0"); guarded(|| Ok(Bump::<M>::with_min_align())) }),
+        0 => ("cap 0 0".to_string(), { d.begin("cap 0 0"); guarded(|| Ok(if plain { if cap % 2 == 0 { as_m(Bump::new()) } else { as_m(Bump::try_new().unwrap()) } } else { Bump::<M>::with_min_align() })) }),
         1 | 2 => {
             let desc = format!("cap {} 0", cap);
             d.begin(&desc);
-            (desc, guarded(|| Ok(Bump::<M>::with_min_align_and_capacity(cap))))
+            (desc, guarded(|| Ok(if plain { as_m(Bump::with_capacity(cap)) } else { Bump::<M>::with_min_align_and_capacity(cap) })))
         }
         _ => {
             let desc = format!("cap {} 1", cap);
             d.begin(&desc);
-            (desc, guarded(|| Bump::<M>::try_with_min_align_and_capacity(cap).map_err(|_| ())))
+            (desc, guarded(|| if plain { Bump::try_with_capacity(cap).map(as_m).map_err(|_| ()) } else { Bump::<M>::try_with_min_align_and_capacity(cap).map_err(|_| ()) }))
         }
     };
     match r {
         Ok(Ok(b)) => {
+            if b.min_align() != M { d.line(&format!("K bad min_align reported {}", b.min_align())); }
             d.bump = Some(b);
             d.end(&desc, &Res::Unit);
         }
